@@ -14,7 +14,7 @@ func init() {
 		NotDecided: "decode(encode(x)) = x for all x; the packfile varint header arithmetic.",
 	}
 	props["C07"] = &propSpec{
-		Rules:      []string{"C07-a", "C07-b", "C07-c", "C07-d", "C07-f", "C06-a", "C13-a", "C13-h", "C17-f"},
+		Rules:      []string{"C07-a", "C07-b", "C07-c", "C07-d", "C07-f", "C06-a", "C13-a", "C13-h", "C17-f", "C17-g"},
 		Decides:    "Decides the receiver's validation/ordering mechanisms and the sender's queue order on every path: received blocks are stored only after ValidateBlockBytes succeeded on the same buffer and under the hash of the decompressed bytes; a commit is stored only after every parent was found; rebuilt block-index sums are compared with the table's recorded sums before the table index is written; the sender appends blocks before their table and the commit after its table. Does not decide byte identity of the two stores or packfile splitting. Also decided: the sender passes the enqueue-next-commit step before leaving WriteObjects; the receiver writes the table object last and never skips its index.",
 		NotDecided: "byte identity of source and destination stores; packfile splitting arithmetic.",
 	}
@@ -64,7 +64,7 @@ func init() {
 		NotDecided: "sortedness and de-duplication of the output for all row multisets and memory limits (value-dependent).",
 	}
 	props["C17"] = &propSpec{
-		Rules:      []string{"C17-a", "C17-b", "C17-c", "C17-d", "C17-e", "C17-f", "C07-b"},
+		Rules:      []string{"C17-a", "C17-b", "C17-c", "C17-d", "C17-e", "C17-f", "C07-b", "C17-g"},
 		Decides:    "Decides, over the functions reachable from the decoder entry points and ObjectReceiver.Receive, that no 32/64-bit count decoded from the stream sizes a make() without a sane bound on every path; that binary.BigEndian reads from caller-supplied slices in error-returning functions are behind a len() guard that relates the length to the read's offset and rejects with an error; that constant indices into decoded collections are behind a length test; that pointer results which can be nil together with an error are not dereferenced before the error test. Does not decide implicit index panics with non-constant indices, loop termination, or that nothing from a rejected packfile stays referenced. Also decided: Grow calls count as allocation sinks; a received commit is stored only after its parents were found.",
 		NotDecided: "implicit index panics with non-constant indices, loop termination, 'nothing from a rejected packfile is left referenced'.",
 	}
